@@ -20,13 +20,16 @@ Record obs := {
   o_recok : bool;            (* writeChunkRecord / writeRootHashRecord outputs concatenate to the journal *)
   o_fn_off : N; o_fn_n : N;  (* processJournalRecords over the in-memory image *)
   o_fn_dl : bool;            (* possibleDataLossCheck over the whole image *)
-  o_res : list res           (* one per damaged image *)
+  o_res : list res;          (* one per damaged image *)
+  o_index : bytes;           (* journal.idx after Close *)
+  o_big : N                  (* large-write run (Go side only): 0 not run, 1 index covers the journal, 2 it does not *)
 }.
 Record input := {
   i_poly : N; i_bufsz : N; i_maxnovel : N;
   i_ops : list op;
   i_known : list bytes;
-  i_muts : list (mut * bool)     (* damage, read-only? *)
+  i_muts : list (mut * bool);    (* damage, read-only? *)
+  i_big : bool                   (* the large-write run crossing journalMaybeSyncThreshold *)
 }.
 Definition case := (input * obs)%type.
 
@@ -72,8 +75,8 @@ Definition model_obs (i : input) : obs :=
   let tbl := crc_table (i_poly i) in
   let crc := crc32_tbl tbl in
   let bufsz := i_bufsz i in
-  let per := run_obs crc bufsz journal_maybe_sync_threshold (i_ops i) w_init in
-  let s := run crc bufsz journal_maybe_sync_threshold (i_ops i) w_init in
+  let per := run_obs crc bufsz journal_maybe_sync_threshold (i_maxnovel i) (i_ops i) w_init in
+  let s := run crc bufsz journal_maybe_sync_threshold (i_maxnovel i) (i_ops i) w_init in
   let j := closed_file s in
   let fn := process crc bufsz (fun _ => true) 0 j in
   {| o_ops := map (fun t => match t with (ok, e, d) => {| oo_ok := ok; oo_end := e; oo_disk := d |} end) per;
@@ -87,7 +90,9 @@ Definition model_obs (i : input) : obs :=
                      let image := apply_mut (enc crc) j (fst mr) in
                      res_of_boot crc (i_known i) image (snd mr)
                                  (bootstrap crc bufsz (negb (snd mr)) (i_maxnovel i) image))
-                  (i_muts i) |}.
+                  (i_muts i);
+     o_index := closed_index crc s;
+     o_big := if i_big i then 1 else 0 |}.
 
 (* ---- comparison ---- *)
 Definition opobs_eqb (a b : opobs) : bool :=
@@ -107,7 +112,8 @@ Definition res_eqb (a b : res) : bool :=
 Definition obs_eqb (a b : obs) : bool :=
   list_eqb opobs_eqb (o_ops a) (o_ops b) && beq_bytes (o_journal a) (o_journal b) && (o_rootsz a =? o_rootsz b)
   && Bool.eqb (o_recok a) (o_recok b) && (o_fn_off a =? o_fn_off b) && (o_fn_n a =? o_fn_n b)
-  && Bool.eqb (o_fn_dl a) (o_fn_dl b) && list_eqb res_eqb (o_res a) (o_res b).
+  && Bool.eqb (o_fn_dl a) (o_fn_dl b) && list_eqb res_eqb (o_res a) (o_res b)
+  && beq_bytes (o_index a) (o_index b) && (o_big a =? o_big b).
 
 (* ---- the property on what the implementation returned ---- *)
 
@@ -160,7 +166,10 @@ Definition oracle (i : input) (o : obs) : bool :=
   && (lenN (o_journal o) =? total_len rs)
   && all2 (fun (mr : mut * bool) (r : res) =>
              res_ok crc rs (i_known i) (lenN (o_journal o)) (fst mr) (snd mr) r)
-          (i_muts i) (o_res o).
+          (i_muts i) (o_res o)
+  (* on the large-write run every index meta ends at a root record and covers every chunk record below it
+     (C03_index_stream_covers on the real files) *)
+  && (if i_big i then o_big o =? 1 else true).
 
 Definition check_case (c : case) : N :=
   (if obs_eqb (model_obs (fst c)) (snd c) then 0 else 1)
